@@ -3,6 +3,7 @@ package config
 import (
 	"encoding/json"
 	"fmt"
+	"sort"
 	"strconv"
 	"strings"
 	"time"
@@ -64,6 +65,18 @@ func (im *StringMap) Decode(input []byte) error {
 func (im *StringMap) Encode() []byte {
 	buff, _ := json.Marshal(im)
 	return buff
+}
+
+// SortedKeys returns the keys of m in ascending order. Settings updates must visit their
+// entries in a fixed order on every node: the first failing entry decides the error text, which
+// becomes the transaction output and is hashed into the block.
+func SortedKeys(m map[string]string) []string {
+	keys := make([]string, 0, len(m))
+	for k := range m {
+		keys = append(keys, k)
+	}
+	sort.Strings(keys)
+	return keys
 }
 
 func InterfaceMapToStringMap(in map[string]interface{}) map[string]string {
